@@ -58,6 +58,8 @@ impl XmlTreeBuilder {
     pub open spec fn stack(&self) -> Seq<NamespaceMap> { self.namespace_stack.v.0@ }
     pub open spec fn cur(&self) -> NamespaceMap { self.current_namespace.v }
     pub open spec fn same_scopes(&self, o: &XmlTreeBuilder) -> bool { self.stack() == o.stack() && self.cur() == o.cur() }
+    /// the stack of open elements and the phase are untouched (what the tree-construction rules of U-xtb need of the namespace code)
+    pub open spec fn same_tree(&self, o: &XmlTreeBuilder) -> bool { self.open_elems == o.open_elems && self.phase == o.phase && self.doc_handle == o.doc_handle }
 }
 
 /// `&mut v[i]` (ASSUMED contract of IndexMut for Vec)
